@@ -115,7 +115,9 @@ pub fn run(em: &mut Emitter, rng: &mut Rng, thorough: bool) {
         decode_case(em, cs, rng.below(3) as u8, &prim_tlv(TAGS[cs as usize], &b), Some(&b));
     }
     // Rust strings for the string constructors
-    let pool: Vec<char> = vec!['0', '9', ' ', 'A', 'z', '?', '*', '@', '\u{7f}', '\0', 'é', '€', '😀', '\u{80}', '\u{7ff}', '\u{800}', '\u{d7ff}', '\u{e000}', '\u{10ffff}', '\'', '(', '=', '_', '&'];
+    let pool: Vec<char> = vec!['0', '9', ' ', 'A', 'z', '?', '*', '@', '\u{7f}', '\0', 'é', '€', '😀', '\u{80}', '\u{7ff}', '\u{800}', '\u{d7ff}', '\u{e000}', '\u{10ffff}', '\'', '(', '=', '_', '&',
+        // characters whose low octet (or low seven bits) is a legal character of a restricted set
+        '\u{120}', '\u{130}', '\u{139}', '\u{141}', '\u{17a}', '\u{2020}', '\u{430}', '\u{1f638}', '\u{a0}', '\u{b0}', '\u{c1}', '\u{ff41}'];
     for cs in 0..4u8 {
         fromstr_case(em, cs, "");
         for &c in &pool { fromstr_case(em, cs, &c.to_string()); for &d in &pool { fromstr_case(em, cs, &format!("{}{}", c, d)); } }
